@@ -63,13 +63,16 @@ def run(tier, rep):
                      need_actions=["Assemble", "SendDatagram", "DoDrop", "DoDup", "DoDamage", "DoDeliver"], workers=min(vlib.NCPU, 8))
     rep.add_mc("MC_Conn", st)
     # fault schedules enumerated by TLC: every assignment of network actions to the first K datagrams of each direction
-    beh = os.path.join(wd, "sched.ndjson")
-    g = vlib.tlc_gen("C02", "Gen_Conn", sim.GEN_CFG, {"K": 3 if quick else 5, "F": 2, "Full": "FALSE" if quick else "TRUE"}, beh, workers=4)
-    rep.add_mc("Gen_Conn", g)
     scs = []
-    with open(beh) as f:
-        for i, line in enumerate(f):
-            scs.append(base(vlib.seed() * 1000000 + i, faults=sim.faults_from_sched(json.loads(line))))
+    # (a) the handshake flights: first K datagrams of each direction, at most 2 faults; (b) the first 1-RTT datagrams, 1 fault
+    for tag, consts in (("hs", {"K": 3 if quick else 5, "F": 2, "Full": "FALSE" if quick else "TRUE", "Off": 0}),
+                        ("data", {"K": 4 if quick else 8, "F": 1 if quick else 2, "Full": "FALSE" if quick else "TRUE", "Off": 3})):
+        beh = os.path.join(wd, "sched_%s.ndjson" % tag)
+        g = vlib.tlc_gen("C02", "Gen_Conn", sim.GEN_CFG, consts, beh, workers=4)
+        rep.add_mc("Gen_Conn/" + tag, g)
+        with open(beh) as f:
+            for i, line in enumerate(f):
+                scs.append(base(vlib.seed() * 1000000 + len(scs), faults=sim.faults_from_sched(json.loads(line))))
     trace, _ = sim.run_sim("C02", "sched", scs)
     sim.validate(rep, "C02", "Conn", "Trace_Conn", TRACE_CFG, trace, "tlc-fault-schedules", is_hit)
     # seeded random long schedules: bounded-fault profiles (liveness clause) and unbounded ones (safety + "told within bounded time")
